@@ -170,7 +170,19 @@ fn gen_file(rng: &mut Rng, i: usize, pattern_pool: usize) -> FileRec {
     if rng.chance(1, 4) {
         name = name.to_uppercase();
     }
-    let rel_path = format!("d{i}/{name}");
+    let mut rel_path = format!("d{i}/{name}");
+    if rng.chance(1, 25) {
+        // a deep directory: records longer than any small threshold (256, 512, 1024, 2048 characters)
+        // somebody might split, chunk or truncate at; PATH_MAX is 4 KiB
+        let target = *rng.pick(&[260usize, 513, 1030, 2100, 4000]);
+        let mut dirs = format!("d{i}");
+        let mut k = 0;
+        while dirs.len() + name.len() + 1 < target {
+            dirs.push_str(&format!("/{}{k}", rng.pick(&["projects", "archive_2019", "run", "x"])));
+            k += 1;
+        }
+        rel_path = format!("{dirs}/{name}");
+    }
     let types = [0o100000u32, 0o100000, 0o100000, 0o040000, 0o120000, 0o010000];
     let size = rng.range(1, 5_000_000);
     let pools = ["fast", "ssd0", "arch_1"];
@@ -193,7 +205,20 @@ fn gen_file(rng: &mut Rng, i: usize, pattern_pool: usize) -> FileRec {
         stripe_size: 1 << 20,
         mirror_count: rng.below(3) as u32,
         pools: if rng.chance(1, 2) { vec![rng.pick(&pools).to_string()] } else { vec![] },
-        xattrs: if rng.chance(1, 2) { vec![("user.tag".into(), rng.pick(&["v1", "blue", "xy"]).to_string())] } else { vec![] },
+        xattrs: if rng.chance(1, 2) {
+            // an extended attribute's value may be as large as 64 KiB: the one field of a record
+            // without a small bound (one value in 16 here is 300, 4096 or 65536 characters long)
+            let v = if rng.chance(1, 16) {
+                let n = *rng.pick(&[300usize, 4096, 65536]);
+                let unit = *rng.pick(&["blue", "v1", "0123456789abcdef"]);
+                unit.chars().cycle().take(n).collect::<String>()
+            } else {
+                rng.pick(&["v1", "blue", "xy"]).to_string()
+            };
+            vec![("user.tag".into(), v)]
+        } else {
+            vec![]
+        },
         empty: rng.chance(1, 8),
         executable: rng.chance(1, 3),
         readable: rng.chance(4, 5),
@@ -1513,7 +1538,7 @@ pub fn check(tier: Tier) -> i32 {
         wall_s: wall,
         evaluations: executions,
         distinct_nontrivial: distinct,
-        rule: "One case = one execution of one generated program (1-14 output actions of every kind over relative/absolute/aliased destinations, framed or plain mode, optional -quit, 0-130 tests in front; probe workloads with -ls/-fls or \\c formats; one workload in 400 is a volume workload of 300-1200 files and 100-400 KiB, one in 2000 a huge one of 1500-3000 files and 3-11 MiB per destination) on 2-4 scanner threads over 1-8 files (one workload in 12: 5-40 threads over 8-52 files) under one seeded schedule (Random, Sticky or PCT strategy; scheduling points at every lock/unlock, every port operation, every access to an assigned variable or hash table, and between files; displays split into up to 3 chunk writes; ports unbuffered or unsynchronised block-buffered with capacity 8-4096; large writes may stall). The final stream of every destination is compared, as a multiset of frames or lines, with sequential scans of the same program. Non-trivial = the event trace switches between scanner threads at least once. distinct_nontrivial counts distinct (program text, lock/unlock/write/file event trace) pairs among them, i.e. distinct interleavings reached.",
+        rule: "One case = one execution of one generated program (1-14 output actions of every kind over relative/absolute/aliased destinations, framed or plain mode, optional -quit, 0-130 tests in front; probe workloads with -ls/-fls or \\c formats; one workload in 400 is a volume workload of 300-1200 files and 100-400 KiB, one in 2000 a huge one of 1500-3000 files and 3-11 MiB per destination) on 2-4 scanner threads over 1-8 files (one file in 25 under a path of 260-4000 characters, one extended-attribute value in 16 of 300-65536 characters; one workload in 12: 5-40 threads over 8-52 files) under one seeded schedule (Random, Sticky or PCT strategy; scheduling points at every lock/unlock, every port operation, every access to an assigned variable or hash table, and between files; displays split into up to 3 chunk writes; ports unbuffered or unsynchronised block-buffered with capacity 8-4096; large writes may stall). The final stream of every destination is compared, as a multiset of frames or lines, with sequential scans of the same program. Non-trivial = the event trace switches between scanner threads at least once. distinct_nontrivial counts distinct (program text, lock/unlock/write/file event trace) pairs among them, i.e. distinct interleavings reached.",
         samples: red.samples.clone(),
         extra,
         assumptions: vec![
